@@ -61,6 +61,7 @@ Proof.
   intros o recs chrlen cid Hs. destruct (chrom_spec_repaired o recs chrlen cid Hs) as (cr & E1 & E2 & E3).
   exists (map row_of (counted o recs)), cr. split. exact E1. split. exact E2.
   unfold l1_row in E3. cbv zeta in E3.
+  apply andb_true_iff in E3. destruct E3 as [E3 _].
   apply andb_true_iff in E3. destruct E3 as [E3 E4]. apply andb_true_iff in E3. destruct E3 as [E3 E5].
   apply andb_true_iff in E3. destruct E3 as [E6 E7].
   split. exact E7. split. exact E6. split. exact E5. apply blocklist_check_prop. exact E4.
@@ -206,4 +207,17 @@ Theorem lengths_repaired :
 Proof.
   intros o recs chrlen cid Hs. destruct (chrom_repaired_props o recs chrlen cid Hs) as (rows & cr & E1 & E2 & _ & _ & Hl & _).
   exists rows, cr. split. exact E1. split. exact E2. apply lengths_ok_prop. exact Hl.
+Qed.
+
+Theorem pieces_repaired :
+  forall (only_snvs : bool) (recs : list vrec) (chrlen : Z -> option Z) (cid : Z),
+  sorted_recs only_snvs recs ->
+  exists rows cr,
+    read_rows only_snvs None recs = Some rows /\
+    process_rows repaired_rules chrlen cid rows = Some cr /\
+    pieces_ok only_snvs recs (cr_row cr) = true.
+Proof.
+  intros o recs chrlen cid Hs. destruct (chrom_spec_repaired o recs chrlen cid Hs) as (cr & E1 & E2 & E3).
+  exists (map row_of (counted o recs)), cr. split. exact E1. split. exact E2.
+  unfold l1_row in E3. cbv zeta in E3. apply andb_true_iff in E3. destruct E3 as [_ E3]. exact E3.
 Qed.
